@@ -527,7 +527,10 @@ def run_pieces(prog, clock, pieces, faults=None, strategy=None, raw=(),
         sim = simc("s")
         m = M(sim, prog, T, faults=faults, raw=raw, base=base)
         if strategy is not None:
-            sim.set_error_strategy(strategy)
+            if isinstance(strategy, tuple):
+                sim.set_error_strategy(strategy[0], strategy[1])
+            else:
+                sim.set_error_strategy(strategy)
         sim.initialize(m, SingleReplication("r", base, T(warmup), T(end)))
         if listener is not None:
             listener(sim)
